@@ -6,9 +6,11 @@ sys.path.insert(0, os.path.join(os.path.dirname(os.path.abspath(__file__)), '..'
 import factsbuild
 assert subprocess.run(['git', '-C', factsbuild.REPO, 'status', '--porcelain', '--untracked-files=no'], capture_output=True, text=True).stdout.strip() == '', 'tree is dirty'
 paths, th = factsbuild.ensure_facts(list(factsbuild.CONFIGS))
-names = set()
+names = {}
 for c, p in paths.items():
-    names |= set(json.load(open(p))['bodies'])
+    for n, b in json.load(open(p))['bodies'].items():
+        # api: part of (or reachable through) the public interface; a private helper may be inlined away by a refactoring
+        names[n] = bool(names.get(n)) or bool(b.get('exported') or b.get('reachable') or b.get('pub'))
 out = os.path.join(os.path.dirname(os.path.abspath(__file__)), '..', 'rules', 'fn_inventory.json')
-json.dump(sorted(names), open(out, 'w'), indent=0)
+json.dump({n: {'api': names[n]} for n in sorted(names)}, open(out, 'w'), indent=0)
 print(len(names), 'functions;', 'repo HEAD', subprocess.check_output(['git', '-C', factsbuild.REPO, 'rev-parse', '--short', 'HEAD'], text=True).strip())
